@@ -37,6 +37,17 @@
 //	         response headers (Content-Type: text/csv, Vary, X-Frame-Options),
 //	         success still carries the configured content type, the error path
 //	         still equals the reference run behind the same middleware.
+//	request method: GET, HEAD, POST, PUT, OPTIONS are all answered by the same
+//	         rule; the reference is run under the same method (through the
+//	         real server a HEAD response has no body on either side, the
+//	         ResponseRecorder shows what the handler wrote).
+//	construction form: templ.Handler(c, options...), a ComponentHandler struct
+//	         literal (value and pointer, fields set directly) and
+//	         templ.Handler(c, WithContentType("")). The configured content type
+//	         of a struct literal / WithContentType("") may be empty: then the
+//	         Content-Type header is unconstrained (whatever the handler or
+//	         net/http's sniffing produce) unless the error path itself chooses
+//	         it; status and body are judged regardless.
 //	pool history: every judged request is preceded, on the same goroutine, by
 //	         one other use of templ's shared byte-buffer pool (failing or
 //	         successful ToGoHTML, failing buffered / streamed request, a large
@@ -83,6 +94,8 @@ type Case struct {
 	ID      int    // request id carried by every chunk marker
 	Pre     string `json:",omitempty"` // "mw": a middleware pre-populated response headers
 	Hist    string `json:",omitempty"` // pool history run on the same goroutine just before the request
+	Method  string `json:",omitempty"` // "" = GET
+	Form    string `json:",omitempty"` // "" = templ.Handler(c, opts...) | struct | ptr | empty-ct
 	leak    string // pool-leak verdicts: the history that wrote the leaked bytes
 }
 
@@ -98,12 +111,50 @@ var (
 	ehs      = []string{"", "status+body", "body", "nothing", "own-ct", "status-only", "header+status+body", "templ-page", "templ-page-ct", "templ-page-stream"}
 	comps    = []string{"plain", "nested", "genstyle"}
 	outcomes = []string{"ok", "err", "cancel", "panic-error", "panic-string", "panic-runtime", "panic-abort"}
+	methods  = []string{"", http.MethodHead, http.MethodPost, http.MethodPut, http.MethodOptions}
+	forms    = []string{"", "struct", "ptr", "empty-ct"}
 	// pool histories ("" = none)
 	histories = []string{"", "togohtml-fail", "togohtml-ok", "buffered-fail", "streamed-fail", "large-ok", "direct-pool"}
 	profiles  = []string{"tiny", "small", "page", "big", "mixed"}
 )
 
 var errFail = errors.New("verif: component failed")
+
+// configuredCT is the content type the handler of cs is configured with; ""
+// only for a struct literal without ContentType and for WithContentType("").
+func configuredCT(cs Case) string {
+	switch cs.Form {
+	case "empty-ct":
+		return ""
+	case "struct", "ptr":
+		return cs.CT
+	}
+	if cs.CT == "" {
+		return defaultCT
+	}
+	return cs.CT
+}
+
+// contentTypeFree: the configuration names no content type and the path taken
+// does not choose one itself (default 500 message and the error handlers that
+// set their own type do).
+func contentTypeFree(cs Case) bool {
+	if configuredCT(cs) != "" {
+		return false
+	}
+	if cs.Outcome == "ok" {
+		return true
+	}
+	_, inner := innerPages[cs.EH]
+	return !(cs.EH == "" || cs.EH == "own-ct" || inner)
+}
+
+func method(cs Case) string {
+	if cs.Method == "" {
+		return http.MethodGet
+	}
+	return cs.Method
+}
 
 func isPanic(outcome string) bool { return strings.HasPrefix(outcome, "panic") }
 
@@ -353,6 +404,15 @@ func errorHandlerText(name string, text func(error) string, ref bool) func(r *ht
 
 // handlerFor builds the handler under test through templ's public API.
 func handlerFor(cs Case) http.Handler {
+	switch cs.Form {
+	case "struct", "ptr": // fields set directly, no constructor defaults
+		ch := templ.ComponentHandler{Component: component(cs), Status: cs.Status, ContentType: cs.CT,
+			ErrorHandler: errorHandler(cs.EH), StreamResponse: cs.Stream}
+		if cs.Form == "ptr" {
+			return &ch
+		}
+		return ch
+	}
 	var opts []func(*templ.ComponentHandler)
 	if cs.Status != 0 {
 		opts = append(opts, templ.WithStatus(cs.Status))
@@ -366,19 +426,21 @@ func handlerFor(cs Case) http.Handler {
 	if cs.Stream {
 		opts = append(opts, templ.WithStreaming())
 	}
+	if cs.Form == "empty-ct" {
+		opts = append(opts, templ.WithContentType(""))
+	}
 	return templ.Handler(component(cs), opts...)
 }
 
 // referenceFor is the specification: what the client must see for cs when the
 // handler is buffered. It never renders the component on the failure path.
 func referenceFor(cs Case) http.Handler {
-	ct := cs.CT
-	if ct == "" {
-		ct = defaultCT
-	}
+	ct := configuredCT(cs)
 	return http.HandlerFunc(func(w http.ResponseWriter, r *http.Request) {
 		if cs.Outcome == "ok" {
-			w.Header().Set("Content-Type", ct)
+			if ct != "" {
+				w.Header().Set("Content-Type", ct)
+			}
 			if cs.Status != 0 {
 				w.WriteHeader(cs.Status)
 			}
@@ -386,7 +448,9 @@ func referenceFor(cs Case) http.Handler {
 			return
 		}
 		if eh := errorHandlerText(cs.EH, func(error) string { return "render failed" }, true); eh != nil {
-			w.Header().Set("Content-Type", ct)
+			if ct != "" {
+				w.Header().Set("Content-Type", ct)
+			}
 			eh(r, expectedErr(cs)).ServeHTTP(w, r)
 			return
 		}
@@ -449,10 +513,10 @@ func (t *trackWriter) Flush() {
 // (Date, Content-Length, Connection etc. belong to net/http.)
 var comparedHeaders = []string{"Content-Type", "X-Content-Type-Options", "X-Verif-Err", "Cache-Control", "Location", "Vary", "X-Frame-Options"}
 
-func observeRecorder(h http.Handler) (o observation) {
+func observeRecorder(h http.Handler, meth string) (o observation) {
 	rec := httptest.NewRecorder()
 	tw := &trackWriter{ResponseWriter: rec}
-	req := httptest.NewRequest(http.MethodGet, "/", nil)
+	req := httptest.NewRequest(meth, "/", nil)
 	func() {
 		defer func() {
 			if p := recover(); p != nil {
@@ -497,13 +561,26 @@ func newServers() *servers {
 
 func (s *servers) close() { s.srv.Close() }
 
-func (s *servers) observe(h http.Handler) observation {
+func (s *servers) observe(h http.Handler, meth string) observation {
 	p := "/x/" + strconv.FormatInt(s.next.Add(1), 10)
+	var invoked atomic.Bool
+	inner := h
+	h = http.HandlerFunc(func(w http.ResponseWriter, r *http.Request) { invoked.Store(true); inner.ServeHTTP(w, r) })
 	s.mu.Lock()
 	s.routes[p] = h
 	s.mu.Unlock()
 	defer func() { s.mu.Lock(); delete(s.routes, p); s.mu.Unlock() }()
-	res, err := s.client.Get(s.srv.URL + p)
+	var res *http.Response
+	var err error
+	// Panic cases make the server close keep-alive connections; a request that
+	// loses the race for such a connection never reaches the handler (Go's
+	// transport retries that by itself only for idempotent methods).
+	for try := 0; try < 8; try++ {
+		req, _ := http.NewRequest(meth, s.srv.URL+p, nil)
+		if res, err = s.client.Do(req); err == nil || invoked.Load() {
+			break
+		}
+	}
 	if err != nil {
 		return observation{Err: err.Error()}
 	}
@@ -513,7 +590,7 @@ func (s *servers) observe(h http.Handler) observation {
 	if err != nil {
 		o.Err = err.Error()
 	}
-	if cl := res.Header.Get("Content-Length"); cl != "" && o.Err == "" && cl != strconv.Itoa(len(b)) {
+	if cl := res.Header.Get("Content-Length"); cl != "" && o.Err == "" && meth != http.MethodHead && cl != strconv.Itoa(len(b)) {
 		o.Err = fmt.Sprintf("Content-Length %s but %d body bytes", cl, len(b))
 	}
 	return o
@@ -578,7 +655,7 @@ func judge(cs Case, got, want observation, sl *slot) verdict {
 			bad = fmt.Sprintf("the configured error handler was called %d times", sl.ehCalls)
 		case got.Status != want.Status:
 			bad = fmt.Sprintf("the error response has status %d", want.Status)
-		case got.Header.Get("Content-Type") != want.Header.Get("Content-Type"):
+		case !contentTypeFree(cs) && got.Header.Get("Content-Type") != want.Header.Get("Content-Type"):
 			bad = fmt.Sprintf("the error response has Content-Type %q", want.Header.Get("Content-Type"))
 		case !bytes.Equal(got.Body, want.Body):
 			bad = "the error response has body " + short(want.Body)
@@ -632,6 +709,9 @@ func judge(cs Case, got, want observation, sl *slot) verdict {
 		return v
 	}
 	for _, h := range comparedHeaders {
+		if h == "Content-Type" && contentTypeFree(cs) {
+			continue
+		}
 		if g, w := got.Header.Values(h), want.Header.Values(h); strings.Join(g, "\x00") != strings.Join(w, "\x00") {
 			v.Category = kind + "-header-" + strings.ToLower(h)
 			v.Detail = fmt.Sprintf("header %s = %q, want %q", h, g, w)
@@ -676,11 +756,11 @@ func runCase(cs Case, srv *servers) verdict {
 	var got, want observation
 	runHistory(cs)
 	if cs.Via == "server" && srv != nil {
-		got = srv.observe(withRequestState(handlerFor(cs), sl, cs.Pre))
-		want = srv.observe(withRequestState(referenceFor(cs), &slot{}, cs.Pre))
+		got = srv.observe(withRequestState(handlerFor(cs), sl, cs.Pre), method(cs))
+		want = srv.observe(withRequestState(referenceFor(cs), &slot{}, cs.Pre), method(cs))
 	} else {
-		got = observeRecorder(withRequestState(handlerFor(cs), sl, cs.Pre))
-		want = observeRecorder(withRequestState(referenceFor(cs), &slot{}, cs.Pre))
+		got = observeRecorder(withRequestState(handlerFor(cs), sl, cs.Pre), method(cs))
+		want = observeRecorder(withRequestState(referenceFor(cs), &slot{}, cs.Pre), method(cs))
 	}
 	return judge(cs, got, want, sl)
 }
@@ -747,11 +827,11 @@ func runHistory(cs Case) {
 	case "togohtml-ok":
 		_, _ = templ.ToGoHTML(context.Background(), stale(false, a, b))
 	case "buffered-fail":
-		observeRecorder(templ.Handler(stale(true, a, b)))
+		observeRecorder(templ.Handler(stale(true, a, b)), http.MethodGet)
 	case "streamed-fail":
-		observeRecorder(templ.Handler(stale(true, a, b), templ.WithStreaming()))
+		observeRecorder(templ.Handler(stale(true, a, b), templ.WithStreaming()), http.MethodGet)
 	case "large-ok":
-		observeRecorder(templ.Handler(stale(false, a, 70*1024+b)))
+		observeRecorder(templ.Handler(stale(false, a, 70*1024+b)), http.MethodGet)
 	case "direct-pool":
 		buf := templ.GetBuffer()
 		_ = stale(false, a, b).Render(context.Background(), buf)
@@ -777,6 +857,12 @@ func key(cs Case, cat string) string {
 		return "pool-leak: bytes written through the shared buffer pool by an earlier " + staleOrigin(cs) + " reached a buffered response"
 	}
 	k := fmt.Sprintf("%s: buffered status=%s ct=%s eh=%s comp=%s outcome=%s chunks=%v via=%s", cat, st, ct, eh, cs.Comp, cs.Outcome, cs.Sizes, cs.Via)
+	if cs.Method != "" {
+		k += " method=" + cs.Method
+	}
+	if cs.Form != "" {
+		k += " form=" + cs.Form
+	}
 	if cs.Pre != "" {
 		k += " pre=" + cs.Pre
 	}
@@ -800,6 +886,11 @@ func reduce(cs Case, cat string, srv *servers) Case {
 	}
 	try(func(t *Case) { t.Via = "recorder" })
 	try(func(t *Case) { t.Pre = "" })
+	try(func(t *Case) { t.Method = "" })
+	try(func(t *Case) { t.Form = "" })
+	if cs.Form != "" {
+		try(func(t *Case) { t.Form = "struct" })
+	}
 	if cat != "pool-leak" { // a pool leak keeps the history that wrote the leaked bytes
 		try(func(t *Case) { t.Hist = "" })
 	}
@@ -872,7 +963,7 @@ func sizesFor(rnd interface{ Intn(int) int }, profile string, k int) []int {
 // Run is the C11 check.
 func Run(c *core.Ctx) {
 	c.Level = "fault_enumeration"
-	c.Rule = "case = (handler configuration: status{unset,200,201,404,500} x content type{default,custom} x error handler{unset + 6 plain variants + 3 variants that are templ.Handlers rendering an error page} x streaming{off,on}) x component{plain, nested child, generated-code shape with runtime buffer; plus two really generated templates (templ generate + go build) in a driver process} x outcome{ok, error, error after the request context was cancelled, panic(error), panic(string), runtime-error panic, panic(http.ErrAbortHandler); generated: also error in a nested template and a runtime-error panic} x {fresh ResponseWriter, headers pre-populated by a middleware} x pool history{none, failing/successful ToGoHTML, failing buffered/streamed request, >64 KB successful request, direct GetBuffer/ReleaseBuffer} run on the same goroutine just before x failure point k=0..8 chunks (every k for every configuration/component/outcome) x chunk-size profile (1 B .. 200 KB); non-trivial = buffered configuration, rendering fails after >= 1 chunk (generated templates: after any output, static text precedes every failure point) was written; distinct by construction (each enumerated tuple once per size draw)"
+	c.Rule = "case = (handler configuration: status{unset,200,201,404,500} x content type{default,custom} x error handler{unset + 6 plain variants + 3 variants that are templ.Handlers rendering an error page} x streaming{off,on}) x component{plain, nested child, generated-code shape with runtime buffer; plus two really generated templates (templ generate + go build) in a driver process} x outcome{ok, error, error after the request context was cancelled, panic(error), panic(string), runtime-error panic, panic(http.ErrAbortHandler); generated: also error in a nested template and a runtime-error panic} x request method{GET,HEAD,POST,PUT,OPTIONS} x construction form{templ.Handler(options), struct literal value, struct literal pointer, WithContentType(empty)} x {fresh ResponseWriter, headers pre-populated by a middleware} x pool history{none, failing/successful ToGoHTML, failing buffered/streamed request, >64 KB successful request, direct GetBuffer/ReleaseBuffer} run on the same goroutine just before x failure point k=0..8 chunks (every k for every configuration/component/outcome) x chunk-size profile (1 B .. 200 KB); non-trivial = buffered configuration, rendering fails after >= 1 chunk (generated templates: after any output, static text precedes every failure point) was written; distinct by construction (each enumerated tuple once per size draw)"
 	c.Assume("net/http (ResponseRecorder, Server, Client) reports status, headers and body faithfully")
 	c.Assume("the reference for a plain error handler's response is that same handler run alone on a ResponseWriter with the configured Content-Type preset; for error handlers that are templ.Handlers it is the inner handler's status, content type and page stated without templ")
 	c.Assume("a panic raised by the component counts as a rendering failure; a panic that leaves ServeHTTP with nothing written is the 'nothing' outcome (net/http aborts the connection)")
@@ -920,6 +1011,9 @@ func Run(c *core.Ctx) {
 	var maxBody atomic.Int64
 	kSeen := make([]atomic.Int64, maxK+1)
 	histSeen := make([]atomic.Int64, len(histories))
+	methSeen := make([]atomic.Int64, len(methods))
+	formSeen := make([]atomic.Int64, len(forms))
+	var nEmptyCT atomic.Int64
 	var nPre, nPanic, nPanicPropagated, nPanicErrorResponse atomic.Int64
 	var vioMu sync.Mutex
 	type vio struct {
@@ -955,6 +1049,16 @@ func Run(c *core.Ctx) {
 								// with and without, and walks through all pool histories
 								if (d+k)%2 == 1 {
 									cs.Pre = "mw"
+								}
+								// methods and construction forms rotate with different periods, so
+								// each (configuration, component, outcome) block meets every method
+								// and, across k and draws, every form
+								cs.Method = methods[n%len(methods)]
+								cs.Form = forms[(n/len(methods)+ci)%len(forms)]
+								methSeen[n%len(methods)].Add(1)
+								formSeen[(n/len(methods)+ci)%len(forms)].Add(1)
+								if configuredCT(cs) == "" {
+									nEmptyCT.Add(1)
 								}
 								cs.Hist = histories[(n+ci)%len(histories)]
 								histSeen[(n+ci)%len(histories)].Add(1)
@@ -1162,6 +1266,22 @@ func Run(c *core.Ctx) {
 		hs[h] = histSeen[i].Load()
 	}
 	c.Set("cases_per_pool_history", hs)
+	ms, fs := map[string]int64{}, map[string]int64{}
+	for i, m := range methods {
+		if m == "" {
+			m = "GET"
+		}
+		ms[m] = methSeen[i].Load()
+	}
+	for i, f := range forms {
+		if f == "" {
+			f = "templ.Handler(options)"
+		}
+		fs[f] = formSeen[i].Load()
+	}
+	c.Set("cases_per_request_method", ms)
+	c.Set("cases_per_construction_form", fs)
+	c.Set("cases_with_empty_configured_content_type", nEmptyCT.Load())
 	c.Set("cases_behind_header_setting_middleware", nPre.Load())
 	c.Set("panic_cases", nPanic.Load())
 	c.Set("buffered_panic_cases_propagated_with_nothing_written", nPanicPropagated.Load())
